@@ -342,6 +342,9 @@ class SavePoint:
             tree = bool(A._tree_root or B._tree_root)
             fa, fb = rb.fields_masked(rb.stream(A), sort_particles=tree), rb.fields_masked(rb.stream(B), sort_particles=tree)
             d = rb.diff_fields(fa, fb, self.names)
+            if tree:
+                # arrays indexed by particle (IAS15's predictor and summation state) follow the re-ordered particle array
+                d = [x for x in d if not str(x).startswith("ri_ias15.")]
             if d:
                 V.append(("continue:%s:fields:%s" % (integ, ",".join(map(str, d))), "after %d further steps original and restored agree in particles but differ in persisted fields %s [%s saved after %s via %s]" % (done, d, lab, hist, via)))
         return V, len(s1), hist
